@@ -85,8 +85,9 @@ def state(vals, tag_i):
 
 
 def reachable_tagnum(vals, tag_i) -> bool:
-    """PYTAG renders the final tag as nothing, so a tag number only exists together with a non-final tag: bumping never
-    produces (final, NUM > 0) — C05 lemma final_tag_has_no_num — and no text reads back as such a state"""
+    """a tag number only exists together with a non-final tag: bumping never produces (final, NUM > 0) — `--tag final` resets NUM,
+    `--tag-num` is refused on a final version (C05 numeric step, run under C02 as L5). PYTAG renders the final tag as nothing, and
+    with TAG in a group of its own (`[-TAG][NUM]`) the number would be glued to the part before it"""
     return not (TAGS[tag_i] == "final" and vals.get("num", 0) != 0)
 
 
